@@ -27,6 +27,17 @@ CLAIMED = {
         "of <=9 time units, <=3 chunks per stream, target sizes 1..4 rows.",
    technique="TLA+ definitional oracle enumerated by TLC + replay of every case into the real code; TLC trace validation for the rechunker",
    design="4/C07"),
+ "C08": dict(
+   text="spec/PluginIter.tla transcribes Plugin.iter (first fetch and pacemaker choice, fetch-until-end, early split, <=10 retrim "
+        "passes, exhaustion and leftover checks) and picks every dependency's chunking nondeterministically from all law-abiding "
+        "chunkings; TLC checks the C08 predicates (PluginIterP.tla: aligned, adjacent, same-kind row alignment, rows inside, "
+        "prefix / exactly-once, no silent drop, no spurious failure) on all reachable states. Every terminal behaviour is "
+        "replayed through the real Plugin.iter with a recording plugin; TLC then judges each recorded real run against the "
+        "P-level (PluginIterTrace.tla); the I-level comparison is reported as drift.",
+   note="Trusted: TLC, the recording plugin and hand-built dependency plugins driving Plugin.iter directly. Bounded: <=4 "
+        "dependencies, <=3 kinds, <=4 rows per kind on grid 0..8, <=4 chunks per dependency.",
+   technique="TLA+ model checking of an implementation-shaped spec + replay of all TLC behaviours into Plugin.iter + TLC trace validation at P-level",
+   design="4/C08"),
 }
 NOT_BUILT = "decision procedure (TLA+ module + binding) not built yet in this session; see DESIGN.md section 4 for the plan"
 
